@@ -6,6 +6,7 @@
 -/
 import RaftWal.Proofs.WalRefine
 import RaftWal.Generated.Conc
+import RaftWal.Proofs.CrashCorollaries
 namespace RaftWal.C04
 open RaftWal
 
@@ -68,5 +69,20 @@ theorem truncations_refine_spec (cfg : WalCfg) (hcfg : cfg.newSegCodec = cfg.cod
     the meta commit succeeded and the new state is published — a truncation whose commit fails (or is cut by a
     crash) deletes nothing -/
 theorem files_deleted_only_after_commit : Generated.finalizerAttachedAfterPublish = true := by decide
+
+/-! ## WAL level: the durability protocol (Model/Crash.lean — meta commits, file creation, rotation, truncation, Open,
+    tied to wal.go by the crash suite's action-by-action and image-by-image correspondence).  `Crash.QuiescentS` is
+    the invariant of a live process between calls; it holds after Open on an empty directory, after every completed
+    call and after every recovery (`Crash.init_quiescentS`, `Crash.call_refines_corrected`, `Crash.crash_safe_corrected`). -/
+
+/-- **a truncation cut by a crash leaves the old log or the truncated log**, and the truncated log — after every later
+    restart — once DeleteRange has returned -/
+theorem truncation_atomic_any_crash (d : Crash.Disk) (hq : Crash.QuiescentS d) (op : Crash.Op)
+    (htr : (∃ m, op = .delHead m) ∨ (∃ m, op = .delTail m)) (hok : op.ok d) (k : Nat) (c : Crash.CrashKind)
+    (d1 d' : Crash.Disk) (hr : Crash.ReachRec (Crash.crashAfter d (Crash.prog d op) k c) d1)
+    (ho : Crash.openResult d1 = some d') :
+    (Crash.absLog d' = Crash.absLog d ∨ Crash.absLog d' = Crash.specApply (Crash.absLog d) op) ∧
+    (Crash.ackPos (Crash.prog d op) < k → Crash.absLog d' = Crash.specApply (Crash.absLog d) op) :=
+  Crash.truncation_atomic d hq op htr hok k c d1 d' hr ho
 
 end RaftWal.C04
